@@ -20,7 +20,11 @@ fn decode_ref_doc(m: &MVal, doc: &str, entry: u8) -> Result<(), Fail> {
     let r = catch(|| match entry {
         0 => serde_json::from_str::<Value>(doc).map_err(|e| e.to_string()),
         1 => serde_json::from_slice::<Value>(doc.as_bytes()).map_err(|e| e.to_string()),
-        _ => serde_json::from_str::<serde_json::Value>(doc).map_err(|e| e.to_string()).and_then(|j| serde_json::from_value::<Value>(j).map_err(|e| e.to_string())),
+        2 => serde_json::from_str::<serde_json::Value>(doc).map_err(|e| e.to_string()).and_then(|j| serde_json::from_value::<Value>(j).map_err(|e| e.to_string())),
+        // a reader that hands out a few bytes at a time (serde_json cannot borrow from the input here)
+        3 => serde_json::from_reader::<_, Value>(crate::readers::HostileReader::new(doc.as_bytes(), crate::readers::Chunking::Random(doc.len() as u64), true, None)).map_err(|e| e.to_string()),
+        // the typed deserialiser of the value's own kind
+        _ => typed_decode(m, doc),
     });
     match r {
         Err(p) => Err(Fail { class: panic_sig(&p), detail: p.msg, text: Some(doc.to_string()) }),
@@ -29,6 +33,29 @@ fn decode_ref_doc(m: &MVal, doc: &str, entry: u8) -> Result<(), Fail> {
             None => Ok(()),
             Some(d) => Err(Fail { class: "mismatch".into(), detail: d, text: Some(doc.to_string()) }),
         },
+    }
+}
+
+fn typed_decode(m: &MVal, doc: &str) -> Result<Value, String> {
+    use libhaystack::val::*;
+    fn de<T: serde::de::DeserializeOwned + Into<Value>>(doc: &str) -> Result<Value, String> {
+        serde_json::from_str::<T>(doc).map(Into::into).map_err(|e| format!("typed: {e}"))
+    }
+    match m {
+        MVal::Num(..) => de::<Number>(doc),
+        MVal::Str(_) => de::<Str>(doc),
+        MVal::Uri(_) => de::<Uri>(doc),
+        MVal::Ref(..) => de::<Ref>(doc),
+        MVal::Symbol(_) => de::<Symbol>(doc),
+        MVal::Date(..) => de::<Date>(doc),
+        MVal::Time(..) => de::<Time>(doc),
+        MVal::DateTime(_) => de::<DateTime>(doc),
+        MVal::Coord(..) => de::<Coord>(doc),
+        MVal::XStr(..) => de::<XStr>(doc),
+        MVal::Dict(_) => de::<Dict>(doc),
+        MVal::Grid(_) => de::<Grid>(doc),
+        MVal::List(_) => serde_json::from_str::<Vec<Value>>(doc).map(Value::make_list).map_err(|e| format!("typed: {e}")),
+        _ => serde_json::from_str::<Value>(doc).map_err(|e| e.to_string()),
     }
 }
 
@@ -54,7 +81,7 @@ fn read_lib_doc(m: &MVal, bits: u64) -> Result<String, Fail> {
 
 fn check(ctx: &mut Ctx, m: &MVal, rng: &mut crate::prng::Rng, stream: &str) {
     let bits = rng.next_u64();
-    let entry = rng.below(3) as u8;
+    let entry = rng.below(5) as u8;
     let (doc, used) = write_hayson(rng, m, true);
     for u in &used {
         ctx.stratum(&format!("spelling:{u}"));
@@ -166,7 +193,7 @@ pub fn run(ctx: &mut Ctx) {
             for p in perms {
                 let doc = format!("{{{},{},{}}}", parts[p[0]], parts[p[1]], parts[p[2]]);
                 ctx.eval("member-orders", crate::prng::hash_str(&doc), true);
-                for entry in 0..3 {
+                for entry in 0..5 {
                     if let Err(f) = decode_ref_doc(m, &doc, entry) {
                         ctx.violation(&format!("A:member-order:{}:{}", f.class, m.kind_name()), &format!("{doc}: {}", f.detail), json!({"doc": doc}));
                     }
